@@ -165,6 +165,16 @@ def run(tier):
             for h in ([], ["h:0"], ["h:1", "h:0"], ["e:0:1"]):
                 scripts.append("Q r0=%s r1=%s %s" % (C.hexs(a), C.hexs(b), " ".join(h + ["e:0:1", "e:1:0", "h:0", "h:1", "e:0:1", "e:1:0"])))
                 expects.append(("pair", eq, len(h), (a, b)))
+        # fetching the text of a string (directly, or by walking the tree as a printer does) is not allowed to change what
+        # equality and hashing say: plain and escaped spellings, alone and inside collections, fetched on either side
+        for x, y, eq in ((b'"name"', b'"name"', True), (b'"name"', b'"other"', False), (b'"a\\nb"', b'"a\\nb"', True), (b'"a\\tb"', b'"a\tb"', True),
+                         (b'""', b'""', True), (b'"x"', b'""', False), (b'"0123456789abcdef0123"', b'"0123456789abcdef0123"', True),
+                         (b'"0123456789abcdef0123"', b'"0123456789abcdef0124"', False)):
+            for wrap in (b"%s", b"[%s 1]", b"{%s 1}", b"#{%s}", b"{:k [%s]}"):
+                a, b = wrap % x, wrap % y
+                for h in (["d:0"], ["d:1"], ["d:0", "d:1"], ["d:0", "h:0"], ["h:0", "d:0"], ["e:0:1", "d:0"], ["d:0", "d:0"]) + ((["sg:0"], ["sg:1"], ["sg:0", "sg:1"]) if wrap == b"%s" else ()):
+                    scripts.append("Q r0=%s r1=%s %s" % (C.hexs(a), C.hexs(b), " ".join(list(h) + ["e:0:1", "e:1:0", "h:0", "h:1", "e:0:1", "e:1:0"])))
+                    expects.append(("pair", eq, len(h), (a, b)))
         # membership and lookup must give the answer equality gives (a container holding a, probed with w), for containers
         # below, at and above the element count where keys get hashed at read time, before and after hashing
         mpairs = [(G.render(rng, v, cfg, rich=False), G.render(rng, w, cfg, rich=False), eq) for v in pool for w, eq in variants(rng, v, cfg)]
